@@ -485,6 +485,12 @@ class Project(MessageHandler):
             # Implicit milestone: has start/end but no duration metrics
             is_implicit_milestone = (start or end) and effort == 0 and duration == 0 and length == 0
 
+            # A date outside the project interval cannot be scheduled here: the main
+            # loop reports such a task as not schedulable
+            p_start, p_end = self.attributes.get("start"), self.attributes.get("end")
+            if p_start and p_end and any(d and not (p_start <= d <= p_end) for d in (start, end)):
+                continue
+
             if is_explicit_milestone or is_implicit_milestone:
                 # Only mark as scheduled if we can set both dates
                 # Milestones with dependencies but no dates need to go through normal scheduling
